@@ -145,6 +145,7 @@ func enableAsserts(cands []*Candidate) []*Term {
 
 // runHoudini drops loop-invariant candidates that are not established or not preserved.
 func (r *FuncResult) runHoudini(tier string) (rounds int, queries int) {
+	proved := map[*houdiniObl][]*Candidate{}
 	for {
 		rounds++
 		changed := false
@@ -170,6 +171,20 @@ func (r *FuncResult) runHoudini(tier string) (rounds int, queries int) {
 				changed = true
 				continue
 			}
+			// an obligation that was proved in an earlier round need not be re-proved unless one of
+			// the candidates it assumed has been dropped since
+			if deps, ok := proved[h]; ok {
+				still := true
+				for _, c := range deps {
+					if !c.Alive {
+						still = false
+					}
+				}
+				if still {
+					continue
+				}
+				delete(proved, h)
+			}
 			for _, q := range buildQueries(h.o, en, false) {
 				qs = append(qs, q)
 				owner[q] = h
@@ -186,6 +201,20 @@ func (r *FuncResult) runHoudini(tier string) (rounds int, queries int) {
 		}
 		runQueries(fastQs, tier, true)
 		runQueries(slowQs, tier, false)
+		failedObl := map[*houdiniObl]bool{}
+		for _, q := range qs {
+			if q.result.verdict != "unsat" {
+				failedObl[owner[q]] = true
+			}
+		}
+		for _, q := range qs {
+			h := owner[q]
+			if !failedObl[h] {
+				if _, ok := proved[h]; !ok {
+					proved[h] = r.enablesIn(h.o)
+				}
+			}
+		}
 		for _, q := range qs {
 			if q.result.verdict != "unsat" {
 				h := owner[q]
@@ -711,4 +740,30 @@ func skolemizeExists(a *Term) *Term {
 		return And(out...)
 	}
 	return one(a)
+}
+
+// enablesIn: the candidates whose enable flag occurs in an obligation (its proof may depend on them).
+func (r *FuncResult) enablesIn(o *Obligation) []*Candidate {
+	byID := map[int]*Candidate{}
+	for _, c := range r.Candidates {
+		byID[c.Enable.id] = c
+	}
+	seen := map[int]bool{}
+	var out []*Candidate
+	var walk func(t *Term)
+	walk = func(t *Term) {
+		if seen[t.id] {
+			return
+		}
+		seen[t.id] = true
+		if c, ok := byID[t.id]; ok {
+			out = append(out, c)
+		}
+		for _, a := range t.args {
+			walk(a)
+		}
+	}
+	walk(o.PC)
+	walk(o.Goal)
+	return out
 }
